@@ -75,7 +75,10 @@ impl Gen {
             return format!("PR BAD {ev} {} {}", self.ts(), self.r.below(5));
         }
         if k < 40 && !self.no_send.contains(&m) {
-            let ev = self.next_ev; self.next_ev += 1; let msg = self.next_msg; self.next_msg += 1;
+            let ev = self.next_ev; self.next_ev += 1; let mut msg = self.next_msg; self.next_msg += 1;
+            // one message in ten carries a rumor dated well ahead of the receivers' clocks (rumor created_at = base + msg, base =
+            // now - 5000 s: numbers from 6000 up are 1000 s and more in the future, and still ordered like their numbers)
+            if self.r.chance(1, 10) { msg += 6000; }
             self.evs.insert(ev, EvMeta { kind: "app", author: m, epoch_hint: self.client_epoch[m] });
             // sometimes a (malicious) sender pre-sets the id of an existing message of another author on its rumor
             let victims: Vec<u64> = w.events.values().filter(|i| i.kind == "app" && i.author != m).filter_map(|i| i.msg.map(|x| x.0)).collect();
@@ -349,6 +352,11 @@ fn step<S: MdkStorageProvider>(w: &mut World<S>, l: &str, truth: &mut Truth, run
             for sm in msgs {
                 let truth_author = w.events.values().find(|i| i.msg.map(|x| x.1) == Some(sm.id)).map(|i| i.author);
                 let recomputed = { let mut e = sm.event.clone(); e.id = None; e.id() };
+                // the id is the hash of the STORED columns too (author, timestamp, kind, tags, content), whatever the rumor's date
+                let from_columns = nostr::EventId::new(&sm.pubkey, &sm.created_at, &sm.kind, &sm.tags, &sm.content);
+                if sm.pubkey != w.clients[m].keys.public_key() && truth_author != Some(m) && from_columns != sm.id {
+                    run.oracle_fail("C04", "", format!("[{backend}] member {m} stores message {} whose id is not the hash of its stored fields (created_at {} vs rumor {})", sm.id, sm.created_at.as_secs(), sm.event.created_at.as_secs()), seqtxt());
+                }
                 let own = sm.pubkey == w.clients[m].keys.public_key();
                 // (a sender that forged the author of its own rumor keeps its own copy under that name: self-inflicted)
                 // the id carried INSIDE the stored event is the message's id too (a sender-chosen id must not survive in it)
